@@ -299,6 +299,15 @@ let step (ss : sess) (t : str array) : str =
   | "code" -> code_dump s (int_of_string t.(1))
   | "dict" -> dict_dump s (int_of_string t.(1))
   | "pretty" -> "pretty:-"
+  | "var" ->
+    let name = coq_of_string (string_of_hexbytes t.(1)) in
+    (match Vm.dict_entry s name with
+     | None -> "EUnknown"
+     | Some (DVar a) ->
+       let rec nth l k = match l with [] -> None | x :: r -> if k = 0 then Some x else nth r (k - 1) in
+       (match nth s.heap (ion a) with Some c -> cell_str c | None -> "EHeapOob")
+     | Some (DConst c) -> cell_str c
+     | Some _ -> "EInternal")
   | other -> "UNKNOWN-STEP " ^ other
 
 let split_steps (t : str array) : str array list =
